@@ -159,8 +159,8 @@ func runC01(c *explore.Ctx) {
 	}
 	for _, m := range []uint32{1, 1025} {
 		m := m
-		scope := fmt.Sprintf("FIELD(%d)/%d", fieldN, m)
-		gen.FieldScope(fieldN, 2, func(idx int64, batch []gen.Doc) bool {
+		scope := fmt.Sprintf("FIELD(%d,6)/%d", fieldN, m)
+		gen.FieldScope(fieldN, 2, 6, func(idx int64, batch []gen.Doc) bool {
 			if c.MineIdx(scope, idx) {
 				checkBuilt(c, "C01", scope, idx, batch, m, c01Comps)
 			}
@@ -168,7 +168,7 @@ func runC01(c *explore.Ctx) {
 		})
 		if c.Thorough() {
 			scope := fmt.Sprintf("FIELD(3)/%d", m)
-			gen.FieldScope(3, 1, func(idx int64, batch []gen.Doc) bool {
+			gen.FieldScope(3, 1, 4, func(idx int64, batch []gen.Doc) bool {
 				if c.MineIdx(scope, idx) {
 					checkBuilt(c, "C01", scope, idx, batch, m, c01Comps)
 				}
